@@ -14,6 +14,7 @@ mod prng;
 mod replsim;
 mod proc;
 mod run;
+mod selftest;
 mod universe;
 
 use serde_json::Value;
@@ -85,6 +86,7 @@ fn main() {
             println!("{out}");
             0
         }
+        "selftest" => selftest::selftest(&args[2..]),
         "replay" => driver::replay(args.get(2).map(|s| s.as_str()).unwrap_or_else(|| usage())),
         _ => usage(),
     };
